@@ -79,15 +79,15 @@ def group_violations(violations, prop):
     return [groups[k] for k in sorted(groups)]
 
 
-def write_replay(prop, g):
+def write_replay(prop, g, name=None):
     d = os.path.join(VERIF, "replays", prop)
     os.makedirs(d, exist_ok=True)
-    path = os.path.join(d, sig_hash(g["sig"]) + ".json")
+    path = os.path.join(d, (name or sig_hash(g["sig"])) + ".json")
     doc = {"property": prop, "clause": g["sig"]["clause"], "signature": g["sig"], "detail": g["detail"],
            "world": g["witness"]["world"], "history": g["witness"]["history"],
            "failing_step": len(g["witness"]["history"]) - 1,
            "harness": {"repo_tree_hash": repo_tree_hash()}}
-    for k in ("engine", "program", "extra"):
+    for k in ("engine", "program", "extra", "fault"):
         if k in g["witness"]:
             doc[k] = g["witness"][k]
     with open(path, "w") as f:
@@ -111,6 +111,12 @@ def conclude(prop, groups, emit=print):
                 hit = e
                 break
         if hit is not None:
+            if hit["id"] not in used:
+                try:
+                    g2 = dict(g)
+                    path = write_replay(prop, g2, name="known-" + hit["id"])
+                except Exception:  # pragma: no cover - replay artefacts are a convenience
+                    pass
             used.setdefault(hit["id"], {"entry": hit, "count": 0, "sigs": 0})
             used[hit["id"]]["count"] += g["count"]
             used[hit["id"]]["sigs"] += 1
